@@ -42,6 +42,11 @@ type Schema struct {
 
 	astNode                  jschema.ASTNode
 	areKeysOptionalByDefault bool
+
+	// isCompiled true once the schema and its types have been compiled and
+	// checked (whatever the outcome): the result is kept, so the set of types
+	// must not change any more.
+	isCompiled bool
 }
 
 var _ jschema.Schema = (*Schema)(nil)
@@ -117,6 +122,12 @@ func (s *Schema) AddType(name string, sc jschema.Schema) (err error) {
 	defer func() {
 		err = panics.Handle(recover(), err)
 	}()
+
+	// The result of the compilation (and of Check) is computed once and kept: a
+	// type added later would never be compiled or checked.
+	if s.isCompiled {
+		return stdErrors.New("schema is already compiled")
+	}
 
 	if err := s.load(); err != nil {
 		return err
@@ -467,6 +478,7 @@ func (s *Schema) buildASTNode() jschema.ASTNode {
 
 func (s *Schema) compile() error {
 	return s.compileOnce.Do(func() (err error) {
+		s.isCompiled = true
 		defer func() {
 			err = panics.Handle(recover(), err)
 		}()
